@@ -148,7 +148,11 @@ class Driver:
     def run(self, lines):
         if not lines:
             return []
-        if not os.path.exists(DRV):
+        for _ in range(90):          # another check may be re-linking the driver right now (build_lock): wait for it, up to 3 min
+            if os.path.exists(DRV):
+                break
+            time.sleep(2)
+        else:
             raise MachineryError("verifdrv not built")
         data = "\n".join(lines) + "\n"
         p = subprocess.run([DRV, self.model], input=data.encode("utf-8"), capture_output=True)
